@@ -482,6 +482,18 @@ def orbMap (o : DOps K) (G m M a e inc Omega omega f : K) : P7 K :=
    v0*((e + cf)*(ci*co*cO - sO*so) - sf*(co*sO + ci*so*cO)),
    v0*((e + cf)*co*si - sf*si*so)⟩
 
+/-! ## which IAS15 arrays `reb_simulation_rescale_var` has to rescale (tools.c:1371-1385) -/
+
+/-- a `struct reb_dp7` member stands for seven arrays -/
+def expandMember (m : String × String) : List String :=
+  if m.2 == "dp7" then [".p0", ".p1", ".p2", ".p3", ".p4", ".p5", ".p6"].map (fun sfx => m.1 ++ sfx) else [m.1]
+
+/-- the per-particle IAS15 arrays that carry information from one step attempt to the next: all members except
+    those whose first use in `reb_integrator_ias15_step` is a plain assignment (scratch arrays).  Every one of
+    them is linear in the variational particles and must be divided by the rescale factor. -/
+def persistentArrays (members : List (String × String)) (writtenFirst : List (String × Bool)) : List String :=
+  (members.filter (fun m => !(writtenFirst.any (fun p => p.1 == m.1 && p.2)))).flatMap expandMember
+
 /-! ## name dispatch of `Particle(variation=, variation2=)` (rebound/particle.py:227-262) -/
 
 /-- shortcut expansion (`l`→`lambda`, `i`→`inc`) -/
